@@ -16,13 +16,13 @@
 (*                         or -1 with the error                                                                        *)
 (*      RecvSendBounds     recv/send return 1..n, 0 only at end of stream (or n = 0)                                    *)
 (*      NoHangPastTimeout  a Hang event (the harness found a call that did not return) is not accepted; a call with a short    *)
-(*                         stream timeout returns within timeout + 1.5 s even though its partner withholds the data           *)
+(*                         stream timeout returns within timeout + 2 s even   though its partner withholds the data           *)
 EXTENDS SockStreamOps, FiniteSets, TLC, Json, IOUtils
 Tr == ndJsonDeserialize(IOEnv.TRACE)
 P == 32749
 ETIMEDOUT == 110
 EAGAIN == 11
-SLACK == 1500000
+SLACK == 2000000
 EINTR == 4
 Min(a, b) == IF a < b THEN a ELSE b
 
